@@ -1,0 +1,8 @@
+//go:build verif
+
+package watchers
+
+// VerifCheckThreshold exposes the low-disk decision: true means "refuse / pause".
+func VerifCheckThreshold(total, free uint64, minSpaceRequired float64) bool {
+	return checkThreshold(total, free, minSpaceRequired) != nil
+}
